@@ -20,7 +20,7 @@ SOFT = {"quick": 50.0, "thorough": 900.0}
 REQUIRED = ["map:translate", "map:rotate", "map:scale", "map:mirror", "via:method", "via:transform-list", "origin:none",
             "origin:given", "judged:vertices", "judged:edges", "judged:copy-independent", "judged:arguments-unchanged",
             "judged:direct-curve", "judged:constructor-arrays", "judged:copy-projected-original-unchanged", "history:assembled-before-the-transformation",
-            "judged:built-in-geometry-follows", "entity:shape", "entity:operation", "entity:sketch", "entity:stack", "composition:2+"]
+            "judged:built-in-geometry-follows", "judged:centre-follows", "judged:transformation-objects-unchanged", "entity:shape", "entity:operation", "entity:sketch", "entity:stack", "composition:2+"]
 MIN_KEYS = 80
 RULE = (
     "entity zoo (Point, Face / Loft carrying each edge kind, Box / Extrude / Revolve / Wedge, curves (discrete, linear / spline "
@@ -320,10 +320,20 @@ def apply_api(entity, maps, via, cb, snaps):
     if via != "method":
         import warnings
 
+        def state(t):
+            o = getattr(t, "origin", "n/a")
+            return None if o is None else ("n/a" if isinstance(o, str) else np.array(o, dtype=float).tolist())
+
+        before = [state(t) for t in tlist]
         with warnings.catch_warnings():
             warnings.simplefilter("ignore")
             entity.transform(tlist)
+        # the transformation objects belong to the caller (who may use the list again on another entity)
+        TLIST_CHANGES[:] = [(type(t).__name__, b, state(t)) for t, b in zip(tlist, before) if state(t) != b]
     return entity
+
+
+TLIST_CHANGES = []
 
 
 def geom_map(m, centre):
@@ -519,6 +529,24 @@ def run_case(ctx, case):
             q = fn(q)
         return q
 
+    if via != "method":
+        ctx.count("judged:transformation-objects-unchanged")
+        if TLIST_CHANGES:
+            ctx.violation(f"transformation-object-modified:{g}", f"{tag} {mkinds}: transform([...]) changed the objects it was given: {TLIST_CHANGES[:3]} (type, origin before, origin after)")
+            del TLIST_CHANGES[:]
+            return
+    # the entity's own centre is a geometric feature: it moves with the entity (it is the default origin of the next call)
+    if g not in ("point", "curve"):
+        try:
+            c0, c1 = np.array(X.center, dtype=float), np.array(Y.center, dtype=float)
+        except Exception:  # noqa: BLE001
+            c0 = c1 = None
+        if c0 is not None and c0.shape == (3,) and c1.shape == (3,) and np.all(np.isfinite(c0)):
+            ctx.count("judged:centre-follows")
+            size_c = 1.0 + float(np.linalg.norm(c0)) + float(np.linalg.norm(A(c0)))
+            if not (float(np.linalg.norm(c1 - A(c0))) <= 1e-7 * size_c * max(1.0, scale_total)):
+                ctx.violation(f"centre-not-transformed:{tag}", f"{mkinds} via {via}: .center was {c0.tolist()}, is {c1.tolist()}, the maps take it to {A(c0).tolist()}")
+                return
     ctx.count("judged:arguments-unchanged")
     for a, before in snaps:
         if not np.array_equal(a, before):
